@@ -419,10 +419,15 @@ package commitlog
 
 // write / WriteMessageSet: the segment's last offset becomes that of the last entry written
 //@ ghost var logWritten bool
-//@ func (*segment).write serves C01, C16
+//@ func (*segment).write serves C01, C16, C09
 //@   returns (n, err)
 //@   requires s != nil && len(entries) >= 1 && (forall j int :: 0 <= j && j < len(entries) ==> entries[j] != nil)
 //@   ensures [last] err == nil ==> s.lastOffset == old(entries[len(entries)-1].Offset)
+// (what the age limit measures: the time of the segment's LAST write, whatever was written before - the same value
+//  setupIndex recovers from the last index entry when the log is reopened)
+//@   ensures [C09:the-last-write-time-is-that-of-the-last-message-written] err == nil ==> s.lastWriteTime == old(entries[len(entries)-1].Timestamp)
+//@   ensures [C09:a-failed-write-leaves-the-last-write-time] err != nil ==> s.lastWriteTime == old(s.lastWriteTime)
+//@   ensures [C09:the-size-grows-by-what-was-written] err == nil ==> s.position == old(s.position) + int64(n)
 //@   ensures [base-kept] forall x *segment :: x.BaseOffset == old(x.BaseOffset)
 //@   ensures [others-kept] forall x *segment :: x != s ==> x.lastOffset == old(x.lastOffset)
 //@   ensures [failed-unchanged] err != nil ==> s.lastOffset == old(s.lastOffset)
